@@ -213,7 +213,7 @@ impl ChainM {
                     return "err".into();
                 }
                 match self.st.contracts.get(addr) {
-                    Some(c) if self.codes.contains_key(&c.code_id) => ok_str(c.storage.iter().map(|(k, v)| format!("{}={}", hexs(k), hexs(v))).collect::<Vec<_>>()),
+                    Some(c) if self.codes.contains_key(&c.code_id) => ok_str((self.codes[&c.code_id].code_tag, c.storage.iter().map(|(k, v)| format!("{}={}", hexs(k), hexs(v))).collect::<Vec<_>>())),
                     _ => "err".into(),
                 }
             }
